@@ -27,8 +27,12 @@ func (w *failWriter) Write(p []byte) (int, error) {
 	w.calls++
 	if w.failAt > 0 && w.calls == w.failAt {
 		w.failed = true
-		// a failing write may have put part of the data out
+		// a failing write may have put part of the data out - or all of it (io.Writer allows n == len(p) with an error,
+		// e.g. a write-then-fsync wrapper whose fsync fails)
 		n := len(p) / 2
+		if w.failAt%2 == 0 {
+			n = len(p)
+		}
 		w.buf.Write(p[:n])
 		return n, errSentinel
 	}
